@@ -193,7 +193,7 @@ def run_stream(ctx, spec, st, replay, scale, hbin, coqc_shards):
     return {"stats": stats, "rejections": rejections, "monitor_failures": mfails, "samples": samples}
 
 
-OPS_SLICE = {"C01": {1, 2, 3}, "C12": {2}, "C13": {1}, "C17": {1}, "C15": {3}}
+OPS_SLICE = {"C01": {1, 2, 3, 4}, "C12": {2}, "C13": {1}, "C17": {1}, "C15": {3}}
 
 
 def ops_stream(ctx, spec, st, replay, scale, hbin, coqc_shards):
@@ -246,7 +246,7 @@ def ops_stream(ctx, spec, st, replay, scale, hbin, coqc_shards):
             k = int(m.group(2))
             if k in OPS_SLICE.get(pid, set()):
                 rejections.append(dict(base, kind="acceptor-rejection", at_op=int(m.group(1)),
-                                       op_kind={1: "mutate", 2: "crossover", 3: "panic"}.get(k, str(k))))
+                                       op_kind={1: "mutate", 2: "crossover", 3: "panic", 4: "initial value differs from the model's init_val"}.get(k, str(k))))
         if kv.get(pid) == "0":
             mfails.append(dict(base, kind="monitor-false", monitor="mon_" + pid))
         sig = hashlib.sha1((o.get("coq") or "").encode()).hexdigest()
@@ -580,10 +580,13 @@ PROPS = {
                             "threaded in-process evaluation: when a failing run returns, no call of the objective function is still executing (meta stream profile inprocfail)"]),
     "C08": _run_prop("C08", [{"kind": "run", "name": "reeval", "profile": "reeval", "count": {"quick": 160, "thorough": 2000}, "salt": 8},
                              {"kind": "run", "name": "mixed", "profile": "short", "count": {"quick": 160, "thorough": 2000}, "salt": 88},
-                             {"kind": "algo", "name": "algo", "profile": "mixed", "count": {"quick": 96, "thorough": 1600}, "salt": 89}],
-                     None, ["algorithm core at operation granularity (algo stream, see C02)"]),
+                             {"kind": "algo", "name": "algo", "profile": "mixed", "count": {"quick": 96, "thorough": 1600}, "salt": 89},
+                             {"kind": "cli", "name": "guess", "profile": "guess", "count": {"quick": 32, "thorough": 300}, "salt": 81}],
+                     None, ["algorithm core at operation granularity (algo stream, see C02)",
+                            "initial value first through the binary and sync_launch (cli stream, profile guess): the evaluation with seed 0 receives the accepted --initial-guess (also `null` for an optional root), else the model's init_val of the spec"]),
     "C14": _run_prop("C14", [{"kind": "run", "name": "mixed", "profile": "mixed", "count": {"quick": 240, "thorough": 4000}, "salt": 14},
                              {"kind": "cli", "name": "files", "profile": "valid", "count": {"quick": 48, "thorough": 400}, "salt": 141},
+                             {"kind": "cli", "name": "drain", "profile": "drain", "count": {"quick": 24, "thorough": 200}, "salt": 143},
                              {"kind": "meta", "name": "meta", "profile": "mixed", "count": {"quick": 160, "thorough": 4000}, "salt": 142}],
                      ["meta_adapt::mutate is modelled with the factor 10^exponent as an arbitrary float (MetaAdapt.v); reached through the cfg(cambrian_verif) re-export"],
                      ["best-seen file and CSV rows (Writer) are not modelled yet",
